@@ -2,16 +2,20 @@ import OrbitModel.Proofs.ReplEnq
 /-!
 # The fetch slots are conserved   (C11)
 
-In every reachable state the free slots plus the workers that hold one add up to the capacity, and
-the in-progress counter is the number of workers that hold a slot. So whenever no worker is left,
+In every reachable state the free slots plus the workers that hold one (inside a fetch, or between
+`processItems` and `processEntryDone`) add up to the capacity, and the in-progress counter is the
+number of workers that hold a slot. So whenever no worker is left,
 every slot is free again: aborted requests (cancelled before, while waiting for a slot, or in the
 middle of a fetch, or failing) never leak one. (Seeded change C11b removed the release from
 `processEntryFailed`; the harness checks the same equation on the real replicator at every rest.)
 -/
 namespace Orbit.Repl
 
+/-- a worker holds a slot while it fetches and until it has run `processEntryDone` -/
+def holds (w : Worker) : Bool := w.pc == .fetching || w.pc == .finishing
+
 /-- workers that hold a slot -/
-def holding (ws : List Worker) : Nat := (ws.filter (fun w => w.pc == .fetching)).length
+def holding (ws : List Worker) : Nat := (ws.filter holds).length
 
 structure Slots (c : Nat) (s : St) : Prop where
   sem : s.sem + holding s.workers = c
@@ -24,7 +28,7 @@ theorem holding_spawn (ctx : Nat) (nw : List Nat) : holding (spawn ctx nw) = 0 :
   unfold holding spawn
   induction nw with
   | nil => rfl
-  | cons h t ih => simp
+  | cons h t ih => simp [holds]
 
 theorem holding_enqd (s : St) (ctx : Nat) (nw : List Nat) : holding (enqd s ctx nw).workers = holding s.workers := by
   rw [enqd_workers, holding_append, holding_spawn, Nat.add_zero]
@@ -43,7 +47,7 @@ theorem getElem?_lt {α : Type} {l : List α} {i : Nat} {a : α} (h : l[i]? = so
 
 /-- removing a worker: the count drops by one iff it held a slot -/
 theorem holding_removeAt {ws : List Worker} {i : Nat} {w : Worker} (h : ws[i]? = some w) :
-    holding (removeAt ws i) + (if w.pc == .fetching then 1 else 0) = holding ws := by
+    holding (removeAt ws i) + (if holds w then 1 else 0) = holding ws := by
   have hlt := getElem?_lt h
   have hsplit : ws = ws.take i ++ w :: ws.drop (i+1) := by
     have hw : ws[i] = w := by
@@ -54,11 +58,11 @@ theorem holding_removeAt {ws : List Worker} {i : Nat} {w : Worker} (h : ws[i]? =
   unfold removeAt
   conv => rhs; rw [hsplit]
   rw [holding_append, holding_append]
-  have : holding (w :: ws.drop (i+1)) = (if w.pc == .fetching then 1 else 0) + holding (ws.drop (i+1)) := by
+  have : holding (w :: ws.drop (i+1)) = (if holds w then 1 else 0) + holding (ws.drop (i+1)) := by
     unfold holding
-    by_cases hp : (w.pc == .fetching) = true
-    · simp [List.filter_cons, hp]; omega
-    · simp [List.filter_cons, hp]
+    by_cases hp : holds w = true
+    · simp [hp]; omega
+    · simp [hp]
   rw [this]; omega
 
 /-- re-labelling worker `i` from waiting to fetching adds one holder -/
@@ -77,8 +81,26 @@ theorem holding_set {ws : List Worker} {i : Nat} {ctx h : Nat} (hw : ws[i]? = so
   conv => rhs; rw [hsplit]
   simp only [holding_append]
   unfold holding
-  simp [List.filter_cons]
+  simp [holds]
   omega
+
+/-- re-labelling worker `i` from fetching to finishing keeps the holders -/
+theorem holding_set_fin {ws : List Worker} {i : Nat} {ctx h : Nat} (hw : ws[i]? = some ⟨ctx, h, .fetching⟩) :
+    holding (ws.set i ⟨ctx, h, .finishing⟩) = holding ws := by
+  have hlt := getElem?_lt hw
+  have hsplit : ws = ws.take i ++ (⟨ctx, h, .fetching⟩ : Worker) :: ws.drop (i+1) := by
+    have hv : ws[i] = ⟨ctx, h, .fetching⟩ := by
+      have := List.getElem?_eq_getElem hlt
+      rw [this] at hw; exact Option.some.inj hw
+    rw [← hv]
+    exact (List.take_append_drop i ws).symm.trans (by rw [List.drop_eq_getElem_cons hlt])
+  have hset : ws.set i ⟨ctx, h, .finishing⟩ = ws.take i ++ (⟨ctx, h, .finishing⟩ : Worker) :: ws.drop (i+1) := by
+    rw [List.set_eq_take_append_cons_drop]; simp [hlt]
+  rw [hset]
+  conv => rhs; rw [hsplit]
+  simp only [holding_append]
+  unfold holding
+  simp [holds]
 
 theorem slots_init (c : Nat) : Slots c { sem := c } := ⟨by simp [holding], by simp [holding]⟩
 
@@ -101,7 +123,7 @@ theorem slots_step (net : Nat → Info) (c : Nat) (s : St) (a : Act) (hs : Slots
       split
       · -- cancelled while waiting: the worker goes, nothing was held
         have hr := holding_removeAt hw
-        simp only [show ((PC.waitSlot == PC.fetching) = false) from rfl, Bool.false_eq_true, if_false, Nat.add_zero] at hr
+        simp only [show (holds ⟨ctx, h, .waitSlot⟩ = false) from rfl, Bool.false_eq_true, if_false, Nat.add_zero] at hr
         refine ⟨?_, ?_⟩
         · simp only [flush_sem, flush_workers, delTask]; rw [hr]; exact hs.sem
         · simp only [flush_inProgress, flush_workers, delTask]; rw [hr]; exact hs.inp
@@ -113,44 +135,44 @@ theorem slots_step (net : Nat → Info) (c : Nat) (s : St) (a : Act) (hs : Slots
           · simp only [setTask]; rw [hset]; have := hs.sem; omega
           · simp only [setTask]; rw [hset, hs.inp]
     · exact hs
-  | fetchOk i =>
+  | fetched i =>
     simp only [step]
     split
     · rename_i ctx h hw
       split
       · exact hs
-      · have hr := holding_removeAt hw
-        simp only [show ((PC.fetching == PC.fetching) = true) from rfl, if_true] at hr
-        have hsem := hs.sem
-        have hinp := hs.inp
+      · have hset := holding_set_fin hw
         split
-        · refine ⟨?_, ?_⟩
-          · rw [done_sem, done_workers]
-            show s.sem + 1 + holding (removeAt s.workers i) = c
-            omega
-          · rw [done_inProgress, done_workers]
-            show s.inProgress - 1 = holding (removeAt s.workers i)
-            omega
+        · exact ⟨by show s.sem + holding (s.workers.set i _) = c; rw [hset]; exact hs.sem,
+            by show s.inProgress = holding (s.workers.set i _); rw [hset]; exact hs.inp⟩
         · obtain ⟨h1, h2, h3⟩ := holding_foldl_enqueue ctx (net h).links
-            { { s with workers := removeAt s.workers i } with buffer := s.buffer ++ [h] }
-          have h1' : holding (List.foldl (enqueue ctx)
-              { { s with workers := removeAt s.workers i } with buffer := s.buffer ++ [h] } (net h).links).workers =
-              holding (removeAt s.workers i) := h1
-          have h2' : (List.foldl (enqueue ctx)
-              { { s with workers := removeAt s.workers i } with buffer := s.buffer ++ [h] } (net h).links).sem = s.sem := h2
-          have h3' : (List.foldl (enqueue ctx)
-              { { s with workers := removeAt s.workers i } with buffer := s.buffer ++ [h] } (net h).links).inProgress =
-              s.inProgress := h3
+            { { s with workers := s.workers.set i ⟨ctx, h, .finishing⟩ } with buffer := s.buffer ++ [h] }
           refine ⟨?_, ?_⟩
-          · rw [done_sem, done_workers, h1', h2']; omega
-          · rw [done_inProgress, done_workers, h1', h3']; omega
+          · rw [h1, h2]; show s.sem + holding (s.workers.set i _) = c; rw [hset]; exact hs.sem
+          · rw [h1, h3]; show s.inProgress = holding (s.workers.set i _); rw [hset]; exact hs.inp
+    · exact hs
+  | finish i =>
+    simp only [step]
+    split
+    · rename_i ctx h hw
+      have hr := holding_removeAt hw
+      simp only [show (holds ⟨ctx, h, .finishing⟩ = true) from rfl, if_true] at hr
+      have hsem := hs.sem
+      have hinp := hs.inp
+      refine ⟨?_, ?_⟩
+      · rw [done_sem, done_workers]
+        show s.sem + 1 + holding (removeAt s.workers i) = c
+        omega
+      · rw [done_inProgress, done_workers]
+        show s.inProgress - 1 = holding (removeAt s.workers i)
+        omega
     · exact hs
   | fetchFail i =>
     simp only [step]
     split
     · rename_i ctx h hw
       have hr := holding_removeAt hw
-      simp only [show ((PC.fetching == PC.fetching) = true) from rfl, if_true] at hr
+      simp only [show (holds ⟨ctx, h, .fetching⟩ = true) from rfl, if_true] at hr
       have hsem := hs.sem
       have hinp := hs.inp
       refine ⟨?_, ?_⟩
